@@ -155,6 +155,17 @@ def wire_rules(ctx, R, verbs=True):
             return ("number", el)
         return ("other", el)
 
+    # ---- W10: the formatter over sample values, read back as a server reads them
+    ctx.rule("W10", "what a server reads from each formatted argument is the argument (quotes, backslashes, CR/LF/NUL, numbers)")
+    fev = format_eval(ctx, R)
+    if fev is not None and fev[0] == "bad":
+        ctx.violation("W10", fmt, "model:formatter", fev[1], node=fmt.node,
+                      witness="the server executes the command on another name than the caller's, or reads two commands")
+    elif fev is not None:
+        ctx.holds("W10", "%s: %d sample values are read back unchanged from their wire form" % (fmt.qualname, fev[1]))
+    else:
+        ctx.notice("W10", "the interpreter cannot follow %s on the sample values; W2 / W6 decide by the shape of the branches" % fmt.qualname)
+    _prev_w = ctx.demote(["W2", "W6"], "the evaluation of the formatter (W10)") if fev is not None and fev[0] == "ok" else None
     # ---- W2 / W3 / W6 -------------------------------------------------------------
     ctx.rule("W2", "every quoting branch escapes backslash first, then double quote")
     ctx.rule("W3", "unquoted pass-through only under isinstance(<marker type built only by the literal builder>)")
@@ -268,6 +279,8 @@ def wire_rules(ctx, R, verbs=True):
         else:
             raise AnalysisError("W2", "formatter emission %s not recognised" % norm(el))
     ctx.need("W2", "quoting branches", nq, 1)
+    if _prev_w is not None:
+        ctx.restore(_prev_w)
     # exactly one emission per iteration
     head = [n for n in cfg.nodes_for(loops[0]) if n.kind == "loop"][0]
     enodes = [x for st in sinks + direct for x in cfg.nodes_for(st)]
@@ -822,6 +835,81 @@ def escaper_order(ctx, f, exprs, var, depth=0):
     return True
 
 
+FORMAT_SAMPLES = [b"abc", b"", b"a b", b'a"b', b"a\\b", b'a\\"b', b"\\", b'"', b'\\"', b'""', b"\\\\", b"x\\", b"caf\xc3\xa9", b"{3}", b"{3+}",
+                  b"a\nb", b"abc\n", b"\n", b"a\r\nb", b"\r", b"a\rb", b"a\x00b", b"\x00", b'q"\n', b" ", b"a\tb", 0, 7, 12345]
+
+
+def wire_decode(out):
+    """What a ManageSieve server reads from one formatted argument (RFC 5804 section 4): a number, a quoted string (only `\\"` and
+    `\\\\` are escapes; no CR, LF or NUL inside) or a non-synchronising literal carrying exactly the announced octets.  None: malformed."""
+    import re
+    if re.fullmatch(rb"\d+", out):
+        return int(out)
+    m = re.fullmatch(rb'"((?:[^"\\\r\n\x00]|\\["\\])*)"', out)
+    if m is not None:
+        return re.sub(rb'\\(["\\])', rb"\1", m.group(1))
+    m = re.fullmatch(rb"\{(\d+)\+\}\r\n(.*)", out, re.S)
+    if m is not None and int(m.group(1)) == len(m.group(2)):
+        return m.group(2)
+    return None
+
+
+def format_eval(ctx, R):
+    """W2/W6 by evaluation (rule W10): the argument formatter interpreted for one argument at a time over sample values - quotes and
+    backslashes alone, doubled, at the end; CR / LF / NUL anywhere, a trailing LF; numbers - and what a server reads from the result must
+    be the value.  -> ("ok", n) | ("bad", message) | None"""
+    if hasattr(ctx, "_format_eval"):
+        return ctx._format_eval
+    ctx._format_eval = None
+    from sa.util import module_resolver
+    fmt = R.formatter
+    own = fmt.params if "staticmethod" in fmt.decorators else fmt.params[1:]
+    if len(own) != 1:
+        return None
+    sn = fmt.params[0] if own is not fmt.params else "self"
+
+    def oracle(interp, e, name, recv, args, kw, st):
+        fn = e.func
+        if name == "isinstance" and len(args) == 2 and isinstance(args[0], fd.Const) and isinstance(args[0].v, (bytes, str, int)) \
+                and isinstance(e.args[1], ast.Name) and ctx.program.cls(e.args[1].id) is not None:
+            return [(fd.Const(False), None)]
+        if isinstance(fn, ast.Name) and fn.id in R.module.funcs:
+            return fd.Inline(R.module.funcs[fn.id])
+        if name and name.startswith("self.") and name[5:] in R.methods and R.methods[name[5:]].node is not interp.f:
+            return fd.Inline(R.methods[name[5:]])
+        return None
+    n = 0
+    for sample in FORMAT_SAMPLES:
+        it = fd.Interp(fmt.node, R.cls.name, oracle, resolve=module_resolver(ctx.program, R.module), loop_unroll=3, max_paths=60, max_depth=4)
+        env = dict(R.const_env(sn))
+        env[own[0]] = fd.Const([sample])
+        try:
+            ps = it.run(env)
+        except (fd.TooManyPaths, RecursionError):
+            return None
+        if len(ps) != 1 or it.unknowns:
+            return None
+        p = ps[0]
+        if p.kind == "raise":
+            if isinstance(sample, bytes) and (b"\r" in sample or b"\n" in sample or b"\x00" in sample):
+                n += 1
+                continue  # refusing a value no quoted string can carry is one of the two correct answers
+            ctx._format_eval = ("bad", "for the argument %r the formatter raises %s" % (sample, p.value))
+            return ctx._format_eval
+        v = p.value
+        if not (isinstance(v, fd.Const) and isinstance(v.v, (list, tuple)) and len(v.v) == 1 and isinstance(v.v[0], (bytes, bytearray))):
+            return None
+        out = bytes(v.v[0])
+        got = wire_decode(out)
+        n += 1
+        if got != sample or type(got) is not type(sample):
+            ctx._format_eval = ("bad", "for the argument %r the formatter writes %r, which a server reads as %s" % (
+                sample, out, "a malformed argument" if got is None else repr(got)))
+            return ctx._format_eval
+    ctx._format_eval = ("ok", n)
+    return ctx._format_eval
+
+
 LITERAL_SAMPLES = ["", "a", "\u00e9t\u00e9 \u2028x", "keep;\n", "a\r\nb\n\nc\rd\r\n\r\ne", 'x"y\\z', "{3+}\r\nabc", "# c\n\n\nstop;"]
 
 
@@ -926,8 +1014,87 @@ def literal_template_ok(ctx, f, e, want_var=None):
     return "data %s is not <parameter>.encode('utf-8')" % norm(dv)
 
 
+TEXT_SAMPLES = ["abc", 'a"b', "a\\b", "caf\u00e9 \u20ac", "a\nb", ""]
+
+
+def formatter_accepts_text(ctx, R):
+    """The formatter itself turns a str argument into the wire form of its UTF-8 bytes (by evaluation over samples): then a caller may hand
+    it the name as it got it."""
+    if hasattr(ctx, "_fmt_text"):
+        return ctx._fmt_text
+    ctx._fmt_text = False
+    from sa.util import module_resolver
+    fmt = R.formatter
+    own = fmt.params if "staticmethod" in fmt.decorators else fmt.params[1:]
+    if len(own) != 1:
+        return False
+    sn = fmt.params[0] if own is not fmt.params else "self"
+
+    def oracle(interp, e, name, recv, args, kw, st):
+        fn = e.func
+        if name == "isinstance" and len(args) == 2 and isinstance(args[0], fd.Const) and isinstance(args[0].v, (bytes, str, int)) \
+                and isinstance(e.args[1], ast.Name) and ctx.program.cls(e.args[1].id) is not None:
+            return [(fd.Const(False), None)]
+        if isinstance(fn, ast.Name) and fn.id in R.module.funcs:
+            return fd.Inline(R.module.funcs[fn.id])
+        if name and name.startswith("self.") and name[5:] in R.methods and R.methods[name[5:]].node is not interp.f:
+            return fd.Inline(R.methods[name[5:]])
+        return None
+    for sample in TEXT_SAMPLES:
+        it = fd.Interp(fmt.node, R.cls.name, oracle, resolve=module_resolver(ctx.program, R.module), loop_unroll=3, max_paths=60, max_depth=4)
+        env = dict(R.const_env(sn))
+        env[own[0]] = fd.Const([sample])
+        try:
+            ps = it.run(env)
+        except (fd.TooManyPaths, RecursionError):
+            return False
+        if len(ps) != 1 or it.unknowns or ps[0].kind != "return":
+            return False
+        v = ps[0].value
+        if not (isinstance(v, fd.Const) and isinstance(v.v, (list, tuple)) and len(v.v) == 1 and isinstance(v.v[0], (bytes, bytearray))):
+            return False
+        if wire_decode(bytes(v.v[0])) != sample.encode("utf-8"):
+            return False
+    ctx._fmt_text = True
+    return True
+
+
+def text_to_bytes_helper(ctx, R, g):
+    """g(x) gives the UTF-8 bytes of a str and leaves bytes alone (by evaluation over samples)"""
+    cache = ctx.__dict__.setdefault("_t2b", {})
+    if g.qualname in cache:
+        return cache[g.qualname]
+    cache[g.qualname] = False
+    from sa.util import module_resolver
+    own = g.params if g.cls is None or "staticmethod" in g.decorators else g.params[1:]
+    if len(own) < 1:
+        return False
+    for sample in TEXT_SAMPLES + [s_.encode("utf-8") for s_ in TEXT_SAMPLES]:
+        it = fd.Interp(g.node, g.cls.name if g.cls is not None else None, None, resolve=module_resolver(ctx.program, R.module), max_paths=20)
+        try:
+            ps = it.run({own[0]: fd.Const(sample)})
+        except (fd.TooManyPaths, RecursionError):
+            return False
+        if len(ps) != 1 or it.unknowns or ps[0].kind != "return" or not isinstance(ps[0].value, fd.Const):
+            return False
+        want = sample.encode("utf-8") if isinstance(sample, str) else sample
+        if not isinstance(ps[0].value.v, (bytes, bytearray)) or bytes(ps[0].value.v) != want:
+            return False
+    cache[g.qualname] = True
+    return True
+
+
 def arg_kind(ctx, R, f, el):
     """Accepted argument forms at a sender call site."""
+    # a helper that gives the UTF-8 bytes of a str (and leaves bytes alone), applied to a parameter
+    if isinstance(el, ast.Call) and len(el.args) == 1 and not el.keywords and isinstance(el.args[0], ast.Name) and el.args[0].id in f.params:
+        g = None
+        if isinstance(el.func, ast.Name):
+            g = R.module.funcs.get(el.func.id)
+        elif isinstance(el.func, ast.Attribute) and isinstance(el.func.value, ast.Name) and el.func.value.id == f.params[0]:
+            g = R.methods.get(el.func.attr) or R.methods.get(mangle(R.cls.name, el.func.attr))
+        if g is not None and text_to_bytes_helper(ctx, R, g):
+            return "parameter turned into its UTF-8 bytes by %s" % g.qualname
     # <param>.encode("utf-8")
     if isinstance(el, ast.Call) and isinstance(el.func, ast.Attribute) and el.func.attr == "encode" \
             and isinstance(el.func.value, ast.Name) and el.func.value.id in f.params:
@@ -941,6 +1108,8 @@ def arg_kind(ctx, R, f, el):
             for a in f.node.args.args:
                 if a.arg == el.id and a.annotation is not None and norm(a.annotation) == "int":
                     return "int parameter"
+            if formatter_accepts_text(ctx, R):
+                return "parameter handed to a formatter that encodes text itself"
             return None
         defs = [d for d in walk_no_nested(f.node) if isinstance(d, ast.Assign)
                 and any(isinstance(t, ast.Name) and t.id == el.id for t in d.targets)]
